@@ -336,10 +336,20 @@ def parallel(fn, specs, jobs=None, desc=None):
         for s in specs:
             yield _guard(fn, s)
         return
+    again = []
     with ProcessPoolExecutor(max_workers=jobs) as ex:
         futs = [ex.submit(_guard, fn, s) for s in specs]
         for f in as_completed(futs):
-            yield f.result()
+            r = f.result()
+            if r.get("inconclusive") and not r.get("violations") and len(again) < 8:
+                again.append(r)      # most often a watchdog on a loaded machine: try once more when the pool is idle
+            else:
+                yield r
+    for r in again:
+        r2 = _guard(fn, r["spec"])
+        if r2.get("inconclusive"):
+            r2["inconclusive"] = ["%s (twice)" % x for x in r2["inconclusive"]]
+        yield r2
 
 
 def _guard(fn, spec):
